@@ -238,6 +238,52 @@ def refill_rule():
     return 'bool', cbool(ok)
 
 
+def main_clock_per_module():
+    """main polls: the body of `for mobj in modules:` is exactly  pinfo = mobj.pollInfo / if <due>: ... /
+    now = time.time()  - the clock is read again INSIDE the loop body, after each module, so that the due test of the
+    next module sees the time its turn comes (no else branch, no break/continue in the loop)"""
+    w = _main_while()
+    loops = [f for f in w.body if isinstance(f, ast.For)
+             and any(_norm(i.test) == 'pinfoandnow>pinfo.last_main+pinfo.interval' for i in walk_type(f, ast.If))]
+    if len(loops) != 1:
+        raise Shape('expected exactly one top-level for loop with the main due test in the main loop')
+    f = loops[0]
+    ok = (_norm(f.target) == 'mobj' and _norm(f.iter) == 'modules' and not f.orelse and len(f.body) == 3
+          and _norm(f.body[0]) == 'pinfo=mobj.pollInfo'
+          and isinstance(f.body[1], ast.If) and _norm(f.body[1].test) == 'pinfoandnow>pinfo.last_main+pinfo.interval'
+          and not f.body[1].orelse
+          and _norm(f.body[2]) == 'now=time.time()'
+          and not walk_type(f, ast.Break) and not walk_type(f, ast.Continue))
+    return 'bool', cbool(ok)
+
+
+def refill_all_due():
+    """refill of the slow poll iterator: `to_poll = []`, then `for mobj in modules:` whose body is exactly
+    pinfo = mobj.pollInfo / if <round due>: to_poll.extend(pinfo.polled_parameters); last_slow = ...  - over ALL
+    modules (no break/continue/else in this loop), then `if to_poll: to_poll = iter(to_poll) else: loop = False`;
+    all this is the else branch of the loop over the iterator"""
+    w = _main_while()
+    outer = [f for f in walk_type(w, ast.For) if _norm(f.iter) == 'to_poll']
+    if len(outer) != 1:
+        raise Shape('expected exactly one loop over to_poll')
+    e = outer[0].orelse
+    if len(e) != 3:
+        return 'bool', 'false'
+    f = e[1]
+    ok = (_norm(e[0]) == 'to_poll=[]'
+          and isinstance(f, ast.For) and _norm(f.target) == 'mobj' and _norm(f.iter) == 'modules' and not f.orelse
+          and len(f.body) == 2 and _norm(f.body[0]) == 'pinfo=mobj.pollInfo'
+          and isinstance(f.body[1], ast.If) and _norm(f.body[1].test) == 'pinfoandnow>pinfo.last_slow+mobj.slowinterval'
+          and not f.body[1].orelse
+          and [_norm(x) for x in f.body[1].body] == ['to_poll.extend(pinfo.polled_parameters)',
+                                                     'pinfo.last_slow=now//mobj.slowinterval*mobj.slowinterval']
+          and not walk_type(f, ast.Break) and not walk_type(f, ast.Continue)
+          and isinstance(e[2], ast.If) and _norm(e[2].test) == 'to_poll'
+          and [_norm(x) for x in e[2].body] == ['to_poll=iter(to_poll)']
+          and [_norm(x) for x in e[2].orelse] == ['loop=False'])
+    return 'bool', cbool(ok)
+
+
 def initialreads_contained():
     """start-up: `mobj.initialReads()` is the only statement of a try whose handlers are
     `except CommunicationFailedError: raise` and `except Exception:` without any raise"""
@@ -293,7 +339,8 @@ def trigger_rule():
 FACTS = [max_wait_ticks, startup_wait_ticks, poll_default_read, poll_without_read_func, nopoll_value,
          poll_default_handler, poll_common_rest, thread_collects_only_polled, callpoll_contains_exceptions,
          callpoll_reraise_guarded, mainloop_never_reraises, main_due_rule, wait_rule, slow_fresh_twice,
-         refill_rule, trigger_rule, initialreads_contained, startup_single_pass]
+         refill_rule, trigger_rule, initialreads_contained, startup_single_pass,
+         main_clock_per_module, refill_all_due]
 
 FINGERPRINTS = {
     'Module.__pollThread': _thread,
